@@ -302,6 +302,7 @@ class ObjEvaluator(Evaluator):
                 if not broke:
                     self.exec_block(st.orelse, env)
                 return
+            self.hand_down(st.iter, it)
         if isinstance(st, ast.Delete):
             for t in st.targets:
                 if isinstance(t, ast.Subscript):
@@ -392,9 +393,12 @@ class ObjEvaluator(Evaluator):
             fn = self.find_method(base, node.attr)
             if fn is not None:
                 return ("boundmethod", base, fn)
+            if pm:
+                raise AnalysisError("E7: the model of %s has no attribute `%s` (line %d)" % (base.name.split("#")[0], node.attr, node.lineno))
             raise PyRaise("AttributeError", node, "%s has no attribute %s" % (base.name, node.attr))
-        if isinstance(base, (SStr, Sym, str, dict, list)):
+        if isinstance(base, (SStr, Sym, str, dict, list)) or (isinstance(base, tuple) and len(base) == 2 and base[0] == "regex"):
             return ("method", base, node.attr)
+        self.hand_down(node.value, base)
         r = Evaluator.e_Attribute(self, node, env)
         if isinstance(r, tuple) and len(r) == 2 and r[0] == "import":
             v = self.resolve_import(r[1])
@@ -453,8 +457,9 @@ class ObjEvaluator(Evaluator):
                 return n_
         return None
 
-    def e_Subscript(self, node, env):
-        base = self.eval(node.value, env)
+    def e_Subscript(self, node, env, base=Evaluator._NOBASE):
+        if base is Evaluator._NOBASE:
+            base = self.eval(node.value, env)
         if isinstance(base, dict):
             k = dict_key(self.eval(node.slice, env))
             if isinstance(k, (Rat, Sym, SStr)):
@@ -492,7 +497,7 @@ class ObjEvaluator(Evaluator):
                 if r is None:
                     raise AnalysisError("E7: character %d of symbolic text (line %d)" % (i, node.lineno))
                 return r
-        return Evaluator.e_Subscript(self, node, env)
+        return Evaluator.e_Subscript(self, node, env, base)
 
     def e_Call(self, node, env):
         f = self.eval(node.func, env)
@@ -516,6 +521,7 @@ class ObjEvaluator(Evaluator):
             out = dict(args[0]) if args and isinstance(args[0], dict) else {}
             out.update(kwargs)
             return out
+        self.hand_down(node.func, f)
         return Evaluator.e_Call(self, node, env)
 
     def new_obj(self, name, cls=None, **attrs):
@@ -797,7 +803,8 @@ class ObjEvaluator(Evaluator):
         if name == "type" and len(args) == 1:
             return ("typeobj", self.type_of(args[0]))
         if name == "isinstance" and len(args) == 2:
-            types = args[1] if isinstance(args[1], tuple) else (args[1],)
+            is_type = lambda t_: isinstance(t_, tuple) and len(t_) == 2 and t_[0] in ("builtin", "type", "typeobj") and isinstance(t_[1], str)
+            types = (args[1],) if is_type(args[1]) else (args[1] if isinstance(args[1], tuple) else (args[1],))
             names = set()
             for t in types:
                 if isinstance(t, tuple) and len(t) == 2 and t[0] in ("builtin", "type", "typeobj"):
@@ -999,7 +1006,34 @@ class ObjEvaluator(Evaluator):
                 return SStr(out).simplify()
             if attr == "format":
                 raise AnalysisError("E7: str.format (line %d)" % node.lineno)
-        return Evaluator.method_call(self, base, attr, args, kwargs, node)
+        if isinstance(base, tuple) and len(base) == 2 and base[0] == "regex":
+            import re as _re
+            if attr == "sub" and len(args) == 2 and isinstance(args[0], str):
+                if isinstance(args[1], str):
+                    return _re.sub(base[1], args[0], args[1])
+                if isinstance(args[1], (SStr, Sym)):
+                    s_ = args[1] if isinstance(args[1], SStr) else SStr([args[1]])
+                    return SStr([_re.sub(base[1], args[0], p_) if isinstance(p_, str) else p_ for p_ in s_.parts]).simplify()
+            if attr == "split" and len(args) == 1 and isinstance(args[0], str):
+                return _re.split(base[1], args[0])
+            raise AnalysisError("E7: regular-expression method %s (line %d)" % (attr, node.lineno))
+        r = Evaluator.method_call(self, base, attr, args, kwargs, node)
+        if isinstance(base, (str, SStr, Sym, dict, list)) and isinstance(r, Opaque) and r.shape is None and (".%s(" % attr) in r.base:
+            # the generic "unknown method" fallback: for text and containers that would be a silently wrong value
+            raise AnalysisError("E7: method `%s` of a %s is not modelled (line %d)"
+                                % (attr, "text" if isinstance(base, (str, SStr, Sym)) else type(base).__name__, node.lineno))
+        return r
+
+    def opaque_call(self, name, args, kwargs, node):
+        if name == "re.compile" and args and isinstance(args[0], str):
+            return ("regex", args[0])
+        if name == "re.sub" and len(args) == 3 and isinstance(args[0], str) and isinstance(args[1], str) and isinstance(args[2], (SStr, Sym)):
+            import re as _re
+            s_ = args[2] if isinstance(args[2], SStr) else SStr([args[2]])
+            return SStr([_re.sub(args[0], args[1], p_) if isinstance(p_, str) else p_ for p_ in s_.parts]).simplify()
+        if getattr(self, "allow_opaque_calls", False) or name in getattr(self.mod, "functions", {}):
+            return Evaluator.opaque_call(self, name, args, kwargs, node)
+        raise AnalysisError("E7: call of `%s` is not modelled (line %d)" % (name, getattr(node, "lineno", 0)))
 
 
 class FileSystem:
@@ -1048,6 +1082,15 @@ class FileSystem:
                 buf.append(SStr(pend).simplify())
             return None
 
+        def writelines(lines):
+            if isinstance(lines, Obj) and "__iter__" in getattr(lines, "pymethods", {}):
+                lines = lines.pymethods["__iter__"]()
+            if not isinstance(lines, (list, tuple)):
+                raise AnalysisError("E7: writelines of a value that is not a sequence")
+            for ln_ in lines:
+                write(ln_)
+            return None
+
         def readlines():
             return list(buf)
 
@@ -1058,7 +1101,7 @@ class FileSystem:
             state["open"] = False
             self.events.append(("close", name, mode))
             return None
-        o.pymethods = {"write": write, "readlines": readlines, "read": read, "close": close,
+        o.pymethods = {"write": write, "writelines": writelines, "readlines": readlines, "read": read, "close": close,
                        "__iter__": readlines, "flush": lambda: None}
         o.lines = buf
         return o
